@@ -216,6 +216,7 @@ theorem inv_stepOp (q : Q α) (op : Op α) (hq : Inv q) : Inv (stepOp q op).1 :=
   | consume => exact inv_consume q hq
   | query => exact hq
   | reopen => exact inv_reopen q hq
+  | kill => exact inv_reopen q hq
 
 theorem inv_runQ (q : Q α) (ops : List (Op α)) (hq : Inv q) : Inv (runQ q ops) := by
   induction ops generalizing q with
